@@ -83,7 +83,11 @@ Definition holds (c : case) : bool :=
           (* exactly the pre-trusted peers in bold *)
           forallb (fun i => forallb (fun r => if name_eqb (o_name r) (expected_name ns i) then Bool.eqb (o_bold r) (pretrusted ns pt i) else true) rows) (seq 0 d) &&
           (* a distribution when there is no distrust to discount *)
-          (if no_negative lt then PrimFloat.leb (fabs (PrimFloat.sub (fold_left PrimFloat.add (map o_score rows) 0%float) 1%float)) 0x1p-30%float else true)
+          (let total := fold_left PrimFloat.add (map o_score rows) 0%float in
+           if no_negative lt then PrimFloat.leb (fabs (PrimFloat.sub total 1%float)) 0x1p-30%float
+           else (* with distrust: every distruster's row is normalised, so the discounts take away at most the
+                   whole mass: the scores still sum to something in [0, 1] *)
+                PrimFloat.leb (-0x1p-30)%float total && PrimFloat.leb total (1 + 0x1p-30)%float)
       | None => false
       end
   | Calc _ _ _ _ _ _ (O200 _ _) => false             (* a result page without the two required files *)
